@@ -7,6 +7,7 @@ package main
 import (
 	_ "verif/sim/avl"
 	_ "verif/sim/store"
+	_ "verif/sim/termin"
 	_ "verif/sim/world"
 	"verif/sim/core"
 )
